@@ -910,6 +910,7 @@ def reveal_excluded(ctx, facts):
                 continue
             name = root.split("::")[-1]
             dom = main.dominators()
+            exc = str(("upvar", params(facts, root).get(3)))      # the third parameter, under whatever name the body captured it
             def dirs(e):
                 return set(re.findall(r"'helpers::Direction', '(Left|Right)'", str(e)))
             gs = malsec.guards(main, r"PartialEq::(ne|eq)$")
@@ -921,19 +922,19 @@ def reveal_excluded(ctx, facts):
                 if fn.endswith("::send") and len(t["args"]) == 3:
                     nsend += 1
                     d_ch = dirs(flow.expr_of(main, t["args"][0], max_depth=10))
-                    cond = [g for g in gs if g[3][1].endswith("::ne") and "excluded" in str(g[1]) and "Role::peer" in str(g[1]) and flow.dominates(dom, g[2][1], bb)]
+                    cond = [g for g in gs if g[3][1].endswith("::ne") and exc in str(g[1]) and "Role::peer" in str(g[1]) and flow.dominates(dom, g[2][1], bb)]
                     if not cond or dirs(cond[0][1]) != d_ch:
                         ok1, why1 = False, f"a share is sent towards {sorted(d_ch)} without the test Some(peer({sorted(d_ch)})) != excluded: the excluded helper receives a share (it can open the value) or a needed share is withheld"
                 if fn.endswith("MaybeFuture::<Fut>::future_or_ok") or fn.endswith("future_or_ok"):
                     nsend += 1
                     cond = flow.expr_of(main, t["args"][0], max_depth=10)
                     clo = flow.expr_of(main, t["args"][1], max_depth=10)
-                    okc = cond[0] == "call" and cond[1].endswith("PartialEq::ne") and "excluded" in str(cond) and "Role::peer" in str(cond)
+                    okc = cond[0] == "call" and cond[1].endswith("PartialEq::ne") and exc in str(cond) and "Role::peer" in str(cond)
                     if not okc or dirs(cond) != dirs(clo) or len(dirs(cond)) != 1:
                         ok1, why1 = False, f"future_or_ok sends towards {sorted(dirs(clo))} under a condition about {sorted(dirs(cond))}: the excluded helper is sent a share, or another helper is not"
             ctx.ob("POLY-reveal", f"{name}:no-send-to-excluded", ok1 and nsend >= 1, why1, site_of(main))
             # 2. excluded helper returns None without receiving
-            eqs = [g for g in gs if g[3][1].endswith("::eq") and "excluded" in str(g[1]) and "Context::role" in str(g[1]) and "Role::peer" not in str(g[1])]
+            eqs = [g for g in gs if g[3][1].endswith("::eq") and exc in str(g[1]) and "Context::role" in str(g[1]) and "Role::peer" not in str(g[1])]
             recvs = [bb for bb, t in main.calls() if (F.callee(t)[0] or "").endswith("::receive")]
             nones = [bb for bb, idx, s in main.iter_assigns() if s["r"]["k"] == "agg" and s["r"].get("adt") == "std::option::Option" and s["r"].get("vn") == "None" and not s["r"]["ops"]]
             ok2 = False
